@@ -1,3 +1,30 @@
-From Verif Require Import Base.
-Theorem placeholder : True. Proof. exact I. Qed.
-Print Assumptions placeholder.
+(* C08 — behaviour is identical across link APIs, payload types and serializers.
+   Proved here (part (a)): the stream API feeds the message-API core exactly the request
+   subsequence and the response subsequence of the envelope sequence, in order, complete, and
+   ends both with the same decode error.  Part (b) (serializer parametricity) is NOT a Coq
+   theorem: the endpoint models never inspect a payload except through the section parameters
+   marshal / unmarshal (Wire.v), and the claim is decided by the configuration sweep of the check
+   (level note). *)
+From Verif Require Import Base Stream.
+
+Theorem stream_is_message_requests :
+  forall l, req_view l = map RFrame (requests_of l) ++ match first_err l with Some n => [RFail n] | None => [] end.
+Proof.
+  induction l as [|[e|n] r IH]; simpl; auto.
+  destruct (e_req e); simpl; rewrite IH; reflexivity.
+Qed.
+Print Assumptions stream_is_message_requests.
+
+Theorem stream_is_message_responses :
+  forall l, res_view l = map RFrame (responses_of l) ++ match first_err l with Some n => [RFail n] | None => [] end.
+Proof.
+  induction l as [|[e|n] r IH]; simpl; auto.
+  destruct (e_res e); simpl; rewrite IH; reflexivity.
+Qed.
+Print Assumptions stream_is_message_responses.
+
+(* an envelope with both members yields both; with neither yields nothing *)
+Example both_and_neither :
+  req_view [SEnv (mkEnv (Some 1%N) (Some 2%N)); SEnv (mkEnv None None); SErr 9%N] = [RFrame 1%N; RFail 9%N] /\
+  res_view [SEnv (mkEnv (Some 1%N) (Some 2%N)); SEnv (mkEnv None None); SErr 9%N] = [RFrame 2%N; RFail 9%N].
+Proof. split; reflexivity. Qed.
